@@ -32,7 +32,7 @@ TO_MANY = {
     "Post": {"comments": ("Comment", "post_id")},
     "Comment": {},
 }
-NAMES = ["ann", "bob", "cy", "dee"]
+NAMES = ["ann", "bob", "cy", "dee", "a b", "a  b"]
 TITLES = ["alpha", "beta", "gamma", "delta"]
 BODIES = ["nice", "cool", "meh", "wow"]
 STR_VALUES = {"name": NAMES, "title": TITLES, "body": BODIES}
@@ -58,7 +58,11 @@ def gen_fn(rng, model):
             return {"k": "fn", "fn": fn, "f": f, "op": rng.choice(sorted(OPS)), "v": rng.randint(2, 5)}
         if fn == "substring":
             n = rng.randint(0, 2)
-            return {"k": "fn", "fn": fn, "f": f, "n": n, "op": rng.choice(["eq", "ne"]), "v": v[n:]}
+            t = {"k": "fn", "fn": fn, "f": f, "n": n, "op": rng.choice(["eq", "ne"]), "v": v[n:]}
+            if rng.random() < 0.5:
+                t["m"] = rng.randint(1, 3)
+                t["v"] = v[n:n + t["m"]]
+            return t
         return {"k": "fn", "fn": fn, "f": f, "op": rng.choice(["eq", "ne", "ge"]), "v": v}
     f = rng.choice(ints)
     return {"k": "fn", "fn": rng.choice(["floor", "ceiling", "round"]), "f": f,
@@ -175,7 +179,9 @@ def render(t, prefix=""):
     if k == "cmp" or k == "ann":
         return "%s%s %s %s" % (prefix, t["f"], t["op"], _lit(t["v"]))
     if k == "fn":
-        if t["fn"] == "substring":
+        if t["fn"] == "substring" and "m" in t:
+            call = "substring(%s%s, %d, %d)" % (prefix, t["f"], t["n"], t["m"])
+        elif t["fn"] == "substring":
             call = "substring(%s%s, %d)" % (prefix, t["f"], t["n"])
         else:
             call = "%s(%s%s)" % (t["fn"], prefix, t["f"])
@@ -249,7 +255,7 @@ def evaluate(t, row, db, model):
         elif fn == "length":
             x = len(x)
         elif fn == "substring":
-            x = x[t["n"]:]
+            x = x[t["n"]:t["n"] + t["m"]] if "m" in t else x[t["n"]:]
         return OPS[t["op"]](x, t["v"])
     if k == "in":
         return row[t["f"]] in t["vs"]
@@ -338,8 +344,8 @@ def shape_of(t):
     def walk(x):
         k = x["k"]
         if k in ("cmp", "ann", "nav", "fn"):
-            lits.append(x["v"])
-            return (k, x.get("fn"), tuple(x.get("path", ())), x["f"], x["op"], x.get("n"))
+            lits.append((x["v"], x.get("n"), x.get("m")))
+            return (k, x.get("fn"), tuple(x.get("path", ())), x["f"], x["op"], "m" in x)
         if k == "in":
             lits.append(tuple(x["vs"]))
             return (k, x["f"], len(x["vs"]))
@@ -370,7 +376,15 @@ def vary_literals(rng, t):
                 x["v"] = rng.randint(0, 6)
             else:
                 v = rng.choice(STR_VALUES.get(x["f"], NAMES))
-                x["v"] = v.upper() if x["fn"] == "toupper" else (v[x["n"]:] if x["fn"] == "substring" else v)
+                if x["fn"] == "substring":
+                    x["n"] = rng.randint(0, 2)
+                    if "m" in x:
+                        x["m"] = rng.randint(1, 3)
+                        x["v"] = v[x["n"]:x["n"] + x["m"]]
+                    else:
+                        x["v"] = v[x["n"]:]
+                else:
+                    x["v"] = v.upper() if x["fn"] == "toupper" else v
         elif k == "in":
             pool = STR_VALUES.get(x["f"]) if isinstance(x["vs"][0], str) else list(range(0, 7))
             x["vs"] = sorted(rng.sample(pool, min(len(x["vs"]), len(pool))))
